@@ -151,6 +151,9 @@ var tmpls = []tmpl{
 	{"with-output-to-string", "any", "(with-output-to-string (s) (format s \"~a-~a\" %a %i))"},
 	{"with-input-from-string", "any", "(with-input-from-string (s \"12 34\") (list (read s) (read s) %a))"},
 	{"with-open-stream", "any", "(with-open-stream (s (make-string-input-stream \"7 8\")) (list (read s) %a))"},
+	{"with-open-stream", "any", "(with-open-stream (s (make-string-input-stream (format nil \"~d 8\" %i))) (list (read s) %a))"},
+	{"with-input-from-string", "any", "(with-input-from-string (s (format nil \"~d 34\" %i)) (list (read s) (read s) %a))"},
+	{"with-input-from-octets", "any", "(with-input-from-octets (s (coerce (list (mod %i 200) 2) 'octets)) (list (read-byte s) (read-byte s) %a))"},
 	{"with-standard-io-syntax", "any", "(with-standard-io-syntax (format nil \"~a\" %a))"},
 	{"base64-encode", "any", "(list (base64-encode (format nil \"~a\" %i)) %a)"},
 	{"base64-decode", "any", "(list (base64-decode (base64-encode (format nil \"~a\" %i))) %a)"},
@@ -159,8 +162,8 @@ var tmpls = []tmpl{
 
 // leaves fill the holes at the bottom: list-written forms with small data.
 var (
-	intLeaves = []string{"(+ 2 3)", "(vtr %k 4)", "(* 2 3)", "(length (list 1 2))", "(- 9 (vtr %k 2))", "(car (list 1 2))"}
-	anyLeaves = []string{"(list 1 2)", "(vtr %k (list 3))", "(+ 1 (vtr %k 6))", "(cons 1 (list 2))", "(car (list (list 5) 6))", "(null (list))"}
+	intLeaves = []string{"(+ 2 3)", "(vtr %k 4)", "(* 2 3)", "(length (list 1 2))", "(- 9 (vtr %k 2))", "(car (list 1 2))", "(c8n)", "(+ 1 (c8n))", "(vtr %k (c8n))"}
+	anyLeaves = []string{"(list 1 2)", "(vtr %k (list 3))", "(+ 1 (vtr %k 6))", "(cons 1 (list 2))", "(car (list (list 5) 6))", "(null (list))", "(list (c8n))", "(c8n)"}
 )
 
 var tmplIndex = map[string][]int{} // form -> indices into tmpls
@@ -371,30 +374,47 @@ func reevalDo(scope *slip.Scope, fn func() slip.Object) robs {
 func reevalCheck(text string) (kind, msg string, base robs, evals int) {
 	scope := slip.NewScope()
 	scope.Let(slip.Symbol("*error-output*"), &slip.OutputStream{Writer: discard{}})
-	base = reevalDo(scope, func() slip.Object { return slip.ReadString(text, scope).Eval(scope, nil) })
-	evals++
-	differ := func(o robs) string {
+	// evaluation k of every treatment runs with (c8n) = k; it is compared with a fresh read+eval
+	// of the same text under the same (c8n)
+	fresh := map[int]robs{}
+	freshAt := func(k int) robs {
+		if r, ok := fresh[k]; ok {
+			return r
+		}
+		c8epoch = int64(k)
+		r := reevalDo(scope, func() slip.Object { return slip.ReadString(text, scope).Eval(scope, nil) })
+		evals++
+		fresh[k] = r
+		return r
+	}
+	base = freshAt(1)
+	for k := 2; k <= 5; k++ {
+		freshAt(k)
+	}
+	differ := func(o, want robs) string {
 		switch {
-		case o.err != base.err:
+		case o.err != want.err:
 			return "error"
-		case o.vals != base.vals:
+		case o.vals != want.vals:
 			return "value"
-		case o.trace != base.trace:
+		case o.trace != want.trace:
 			return "trace"
 		}
 		return ""
 	}
 	judge := func(treat string, k int, o robs) bool {
 		evals++
-		if d := differ(o); d != "" {
+		want := freshAt(k)
+		if d := differ(o, want); d != "" {
 			kind = d
-			msg = fmt.Sprintf("%s, evaluation %d: %s; first fresh read+eval: %s", treat, k, o, base)
+			msg = fmt.Sprintf("%s, evaluation %d: %s; fresh read+eval of the same text under the same (c8n): %s", treat, k, o, want)
 			return false
 		}
 		return true
 	}
+	c8epoch = 1
 	// a second fresh read+eval of the same text
-	if !judge("second fresh read+eval of the same text", 1, reevalDo(scope, func() slip.Object { return slip.ReadString(text, scope).Eval(scope, nil) })) {
+	if !judge("second fresh read+eval of the same text", 1, reevalDo(scope, func() slip.Object { c8epoch = 1; return slip.ReadString(text, scope).Eval(scope, nil) })) {
 		kind = "fresh-" + kind
 		return
 	}
@@ -402,7 +422,7 @@ func reevalCheck(text string) (kind, msg string, base robs, evals int) {
 	// the same Code object in list form
 	code := slip.ReadString(text, scope)
 	for k := 1; k <= K; k++ {
-		if !judge("same Code object (list form)", k, reevalDo(scope, func() slip.Object { return code.Eval(scope, nil) })) {
+		if !judge("same Code object (list form)", k, reevalDo(scope, func() slip.Object { c8epoch = int64(k); return code.Eval(scope, nil) })) {
 			return
 		}
 	}
@@ -413,7 +433,7 @@ func reevalCheck(text string) (kind, msg string, base robs, evals int) {
 		return
 	}
 	for k := 1; k <= K; k++ {
-		if !judge("same Code object after Code.Compile", k, reevalDo(scope, func() slip.Object { return ccode.Eval(scope, nil) })) {
+		if !judge("same Code object after Code.Compile", k, reevalDo(scope, func() slip.Object { c8epoch = int64(k); return ccode.Eval(scope, nil) })) {
 			return
 		}
 	}
@@ -428,6 +448,7 @@ func reevalCheck(text string) (kind, msg string, base robs, evals int) {
 			if cobj == nil {
 				return nil
 			}
+			c8epoch = int64(k)
 			return cobj.Eval(scope, 0)
 		})) {
 			return
@@ -454,7 +475,7 @@ func reevalCheck(text string) (kind, msg string, base robs, evals int) {
 		}
 		call := "(" + name + ")"
 		for k := 1; k <= K; k++ {
-			if !judge(treat, k, reevalDo(scope, func() slip.Object { return slip.ReadString(call, scope).Eval(scope, nil) })) {
+			if !judge(treat, k, reevalDo(scope, func() slip.Object { c8epoch = int64(k); return slip.ReadString(call, scope).Eval(scope, nil) })) {
 				return
 			}
 		}
